@@ -186,6 +186,7 @@ func scenariosFor(tier string) []vrt.Scenario {
 		{"limit-reached-in-users-stage", []stageCfg{{1, ab1}, {0, a2}}, -1, 1, false},
 	}
 	var out []vrt.Scenario
+	out = append(out, scenario(cfgs[0]).WithPlainPoints(1), scenario(cfgs[2]).WithPlainPoints(1))
 	for _, c := range cfgs {
 		s := scenario(c)
 		s.Bound = 1
